@@ -161,7 +161,6 @@ class Device:
             self.log.add('devclose', t=t, who='device', conn=ch.cid)
 
     def on_send(self, ch, data):
-        self.sched.yield_(('send', ch.cid))
         n = self.nsend
         self.nsend += 1
         now = self.sched.now
@@ -226,7 +225,9 @@ class FakeConn(AsynConn):
 
     def disconnect(self):
         ch = self.connection
-        self.dev.sched.yield_(('hclose',))
+        if ch is not None and ch.open:      # (not when called once more from __del__, at an arbitrary point)
+            self.dev.sched.yield_(('hclose',))
+            ch = self.connection
         if ch is not None and ch.open:
             ch.open = False
             try:
@@ -236,7 +237,11 @@ class FakeConn(AsynConn):
         self.connection = None
 
     def send(self, data):
-        self.dev.on_send(self.connection, data)
+        self.dev.sched.yield_(('send',))
+        ch = self.connection
+        if ch is None or not ch.open:       # closed on our side by another thread meanwhile
+            raise OSError('connection closed')
+        self.dev.on_send(ch, data)
 
     def _readable(self):
         return self.connection.readable(self.dev.sched.now)
@@ -261,6 +266,8 @@ class FakeConn(AsynConn):
         sched.yield_(('recv', ch.cid))
         while True:
             now = sched.now
+            if not ch.open:     # closed on OUR side by another thread meanwhile: as a socket that was shut down
+                raise ConnectionClosed()
             if ch.items and ch.items[0][0] <= now:
                 data = ch.items.pop(0)[1]
                 log.add('recv', conn=ch.cid, out='data', data=data.decode('latin-1'))
@@ -278,4 +285,4 @@ class FakeConn(AsynConn):
             if not sched.managed():
                 sched.now += wait
                 continue
-            sched.block(('recv', ch.cid), lambda: ch.readable(sched.now), wait)
+            sched.block(('recv', ch.cid), lambda: ch.readable(sched.now) or not ch.open, wait)
